@@ -146,7 +146,7 @@ type wworld struct {
 	dbfault    bool // a storage command was made to fail: leftovers beyond the end of a log are tolerated by the store oracle
 	snapSeen   map[string]bool
 	jobs       []wjob
-	holdMode   int           // racing snapshot updates: 1 = this sync's background update is held in its first query, 2 = the sync after it
+	holdMode   int           // racing snapshot updates: 1 = this sync's background update is held in its first query, 2 = the sync after it, 3 = this sync's background update finds the store unavailable in its first query and comes to nothing
 	holdRel    func()        // releases the held query
 	holdOn     bool          // the hold of mode 1 was reached
 	concurrent bool // requests were served concurrently: quiescence is judged under C12
@@ -725,6 +725,49 @@ func (w *wworld) staleUpdate() {
 	w.c.Count("ev-stale-snapshot-update")
 }
 
+// delayedUpdate: the background snapshot update of a push comes to nothing when it starts (the store is unavailable for its
+// first query) and runs only later — as a handler's goroutine that is slow would —, after a further push on the same
+// datatype has been committed and has updated the snapshot.  The update of the older push, holding the older datatype
+// document, must then change nothing: every stored snapshot is the replay up to ITS version and the version of the user
+// document never decreases (C11).
+func (w *wworld) delayedUpdate(x *wdt) {
+	if x.rep.dt.GetState() != model.StateOfDatatype_SUBSCRIBED || w.dbfault {
+		return
+	}
+	colDoc, _ := w.e.mgr.Mongo.GetCollection(w.e.ctx, x.owner.col)
+	if colDoc == nil {
+		return
+	}
+	w.local(x)
+	if len(x.rep.dt.CreatePushPullPack().Operations) == 0 {
+		return
+	}
+	w.holdMode = 3
+	w.sync(x, 0)
+	reached := w.holdOn
+	w.holdMode, w.holdOn = 0, false
+	if !reached {
+		return
+	}
+	dA, _ := w.e.mgr.Mongo.GetDatatypeByKey(w.e.ctx, colDoc.Num, x.key)
+	if dA == nil {
+		return
+	}
+	w.local(x)
+	if len(x.rep.dt.CreatePushPullPack().Operations) == 0 {
+		return
+	}
+	w.sync(x, 0)
+	doc := *dA
+	_ = snapshot.NewManager(w.e.ctx, w.e.mgr, &doc, colDoc).UpdateSnapshot()
+	after := w.dbDigest()
+	w.checkSnapshots()
+	w.evs = append(w.evs, fmt.Sprintf("WSnapUpd %s (mkDdoc %s %s %s %s %s [] []) %s", gStr(x.owner.col), gStr(dA.DUID), gStr(dA.Key), gN(uint64(dA.CollectionNum)),
+		gN(typeNum[dA.Type]), gN(dA.Sseq.End), after.gal))
+	w.desc = append(w.desc, fmt.Sprintf("the snapshot update of the push of key %q to end %d runs only now, after a later push", dA.Key, dA.Sseq.End))
+	w.c.Count("ev-delayed-snapshot-update")
+}
+
 // captureJob remembers the datatype document as a handler that just stored operations held it
 // racingUpdates: the background snapshot update of one push is slow (its first query is answered late) while a second
 // push on the same datatype is committed and its update runs.  Updates of one datatype run one at a time (their lock):
@@ -1035,6 +1078,10 @@ func (w *wworld) sync(x *wdt, fault int) {
 	if w.holdMode == 1 {
 		holdReached, w.holdRel = w.e.fm.HoldNext("find", "-_-Snapshots")
 	}
+	if w.holdMode == 3 {
+		holdReached = w.e.fm.FailNextOn("find", "-_-Snapshots")
+		w.holdRel = func() {}
+	}
 	ex := w.call(msg)
 	if ex.timeout {
 		prop := "C16"
@@ -1090,6 +1137,20 @@ func (w *wworld) sync(x *wdt, fault int) {
 	isErr := resp.GetPushPullPackOption().HasErrorBit()
 	if fault == 4 && !isErr {
 		w.c.Violate("C08", "fault-not-reported", fmt.Sprintf("storage command %s failed while serving key %q but the client got a normal response", fg, x.key), w.desc)
+	}
+	if w.holdMode == 3 {
+		w.holdOn = false
+		if !isErr && pushed > 0 {
+			select {
+			case <-holdReached:
+				w.holdOn = true
+				time.Sleep(2 * time.Millisecond) // the update's goroutine ends with the error
+			case <-time.After(time.Second):
+			}
+		}
+		if !w.holdOn {
+			w.e.fm.Disarm()
+		}
 	}
 	if w.holdMode == 1 {
 		// the background snapshot update of this push is to be held in its first query: wait until it got there
@@ -1490,7 +1551,11 @@ func (w *wworld) raw(x *wdt) {
 	col, cuid := x.owner.col, x.owner.cuid
 	rng := w.c.Rng
 	what := ""
-	switch rng.Intn(14) {
+	noCP := false
+	switch rng.Intn(15) {
+	case 14:
+		noCP = true
+		what = "no checkpoint"
 	case 0:
 		pack.Option |= uint32(model.PushPullBitReadOnly)
 		what = "read-only bit"
@@ -1548,6 +1613,31 @@ func (w *wworld) raw(x *wdt) {
 	}
 	if what == "" {
 		what = "unchanged copy"
+	}
+	if noCP {
+		// a pack whose checkpoint field is absent: not a request of the model (its packs always carry one); judged here alone —
+		// answered, refused, nothing stored (C16).  The unrepaired server crashed on it.
+		p2 := cloneP(pack)
+		p2.CheckPoint = nil
+		m2 := &model.PushPullMessage{Header: model.NewMessageHeader(model.RequestType_PUSHPULLS), Collection: col, Cuid: cuid, PushPullPacks: []*model.PushPullPack{p2}}
+		before := w.dbDigest()
+		w.desc = append(w.desc, fmt.Sprintf("raw request from dt%d (no checkpoint)", x.idx))
+		w.c.Suspect("C16", "server-crash", "the server process went down while serving a push-pull pack without a checkpoint", w.desc)
+		ex := w.call(m2)
+		time.Sleep(2 * time.Millisecond)
+		w.c.ClearSuspect()
+		if ex.timeout {
+			w.c.Violate("C16", "no-answer", "a push-pull pack without a checkpoint was not answered within 8s", w.desc)
+			panic("request not answered")
+		}
+		if ex.err == nil && !ex.resp.PushPullPacks[0].GetPushPullPackOption().HasErrorBit() {
+			w.c.Violate("C16", "pack-without-checkpoint-accepted", "a push-pull pack without a checkpoint got a regular answer", w.desc)
+		}
+		if after := w.dbDigest(); after.text != before.text {
+			w.c.Violate("C16", "refused-request-changed-store", "a push-pull pack without a checkpoint was refused but the stored data changed", w.desc)
+		}
+		w.c.Count("ev-raw-no-checkpoint")
+		return
 	}
 	msg := &model.PushPullMessage{Header: model.NewMessageHeader(model.RequestType_PUSHPULLS), Collection: col, Cuid: cuid, PushPullPacks: []*model.PushPullPack{pack}}
 	reqG := gPpp(pack)
@@ -1808,6 +1898,9 @@ func sliceWire(c *Ctx, kind string) {
 				case k < 12 && !faults && !c.DbFaults:
 					w.cur = "racing-updates"
 					w.racingUpdates(x)
+				case k < 16 && !faults && !c.DbFaults:
+					w.cur = "delayed-update"
+					w.delayedUpdate(x)
 				case k < 45:
 					w.cur = "local"
 					w.local(x)
